@@ -19,10 +19,10 @@ use grin_core::core::hash::Hash;
 use grin_core::core::merkle_proof::MerkleProof;
 use grin_core::core::pmmr::segment::{Segment, SegmentIdentifier, SegmentProof};
 use grin_core::core::{
-	BlockHeader, HeaderVersion, Output,
-	KernelFeatures, OutputIdentifier, Transaction, TxKernel, UntrustedBlock, UntrustedBlockHeader,
-	UntrustedCompactBlock,
+	Block, BlockHeader, CompactBlock, HeaderVersion, Input, Inputs, KernelFeatures, Output, OutputFeatures,
+	OutputIdentifier, ShortId, Transaction, TxKernel, UntrustedBlock, UntrustedBlockHeader, UntrustedCompactBlock,
 };
+use grin_util::secp::pedersen::Commitment;
 use grin_core::global::{self, ChainTypes};
 use grin_core::pow::{Difficulty, Proof, ProofOfWork};
 use grin_core::ser::{
@@ -48,6 +48,17 @@ use std::sync::atomic::{AtomicU64, AtomicUsize, Ordering};
 // counting allocator
 
 static MAX_REQ: AtomicUsize = AtomicUsize::new(0);
+/// bytes currently allocated, and the largest value since the last reset (live peak)
+static LIVE: AtomicUsize = AtomicUsize::new(0);
+static PEAK: AtomicUsize = AtomicUsize::new(0);
+
+fn live_add(n: usize) {
+	let now = LIVE.fetch_add(n, Ordering::Relaxed) + n;
+	PEAK.fetch_max(now, Ordering::Relaxed);
+}
+fn live_sub(n: usize) {
+	LIVE.fetch_sub(n, Ordering::Relaxed);
+}
 /// requests above this are refused (null) after a note on stderr: the process then aborts exactly as
 /// it does when the system allocator fails
 const REFUSE_ABOVE: usize = 1 << 32;
@@ -94,6 +105,7 @@ unsafe impl GlobalAlloc for Counting {
 			refuse(l.size());
 			return std::ptr::null_mut();
 		}
+		live_add(l.size());
 		System.alloc(l)
 	}
 	unsafe fn alloc_zeroed(&self, l: Layout) -> *mut u8 {
@@ -102,9 +114,11 @@ unsafe impl GlobalAlloc for Counting {
 			refuse(l.size());
 			return std::ptr::null_mut();
 		}
+		live_add(l.size());
 		System.alloc_zeroed(l)
 	}
 	unsafe fn dealloc(&self, p: *mut u8, l: Layout) {
+		live_sub(l.size());
 		System.dealloc(p, l)
 	}
 	unsafe fn realloc(&self, p: *mut u8, l: Layout, new_size: usize) -> *mut u8 {
@@ -112,6 +126,11 @@ unsafe impl GlobalAlloc for Counting {
 		if new_size > REFUSE_ABOVE {
 			refuse(new_size);
 			return std::ptr::null_mut();
+		}
+		if new_size >= l.size() {
+			live_add(new_size - l.size());
+		} else {
+			live_sub(l.size() - new_size);
 		}
 		System.realloc(p, l, new_size)
 	}
@@ -122,12 +141,19 @@ static GLOBAL: Counting = Counting;
 
 static HEARTBEAT: AtomicU64 = AtomicU64::new(0);
 
+/// live peak (above the level at the start) of the last `measured` call
+static LAST_PEAK: AtomicUsize = AtomicUsize::new(0);
+
 /// run `f` under `catch_unwind`, returning its result and the largest allocation request it made
+/// (the live peak above the starting level is left in `LAST_PEAK`)
 fn measured<R, F: FnOnce() -> R + std::panic::UnwindSafe>(f: F) -> (Result<R, String>, usize) {
 	HEARTBEAT.fetch_add(1, Ordering::Relaxed);
 	MAX_REQ.store(0, Ordering::Relaxed);
+	let base = LIVE.load(Ordering::Relaxed);
+	PEAK.store(base, Ordering::Relaxed);
 	let r = catch(f);
 	let m = MAX_REQ.load(Ordering::Relaxed);
+	LAST_PEAK.store(PEAK.load(Ordering::Relaxed).saturating_sub(base), Ordering::Relaxed);
 	(r, m)
 }
 
@@ -1357,6 +1383,527 @@ fn consistent_resize_streams(cx: &mut Ctx) {
 }
 
 // ---------------------------------------------------------------------------------------------
+// the decoders of the consensus objects, compared line by line with the instrumented models of
+// lean/GrinVerif/Model/DecSer.lean:
+//   codec decs <D> <bin|buf> <ver> <extra> <hex> => ok <consumed> <canon> <maxreq> <peak> | err <E> <maxreq> <peak>
+//                                                   | panic <maxreq> <peak>
+//   codec memsize <T> => <size_of::<T>()>
+// `extra` = `-`, or `<now>:<ftl>:<pow>` for the readers that run the UntrustedBlockHeader checks (the
+// clock, the future time limit and the verdict of pow::verify_size on the decoded header are inputs of the
+// model).  `maxreq` = largest single allocation request, `peak` = live peak above the level at the start;
+// both must stay below the model's requested allocation (+ 1 KiB for error strings and the like).
+
+/// additive constant of the proven bound `93·len + k` (AutomatedTesting, proof size 8), with the 1 KiB slack
+const SER_K: usize = 1_100_000;
+
+impl Ctx {
+	fn decs<T: Readable, F: FnOnce(T) -> String>(&mut self, d: &str, buf: bool, ver: u32, extra: &str, bytes: &[u8], canon: F) {
+		let (r, maxreq) = read_with::<T>(buf, bytes, ver);
+		let peak = LAST_PEAK.load(Ordering::Relaxed);
+		let lhs = format!("codec decs {} {} {} {} {}", d, if buf { "buf" } else { "bin" }, ver, extra, hex(bytes));
+		let dname = format!("s:{}", d);
+		let st = self.stats.entry(dname.clone()).or_default();
+		st.cases += 1;
+		st.max_req = st.max_req.max(maxreq).max(peak);
+		let ratio = (maxreq.max(peak) as u64 * 1000) / (bytes.len().max(1) as u64);
+		st.max_ratio_milli = st.max_ratio_milli.max(ratio);
+		let rhs = match r {
+			Ok(Ok((v, n))) => {
+				st.ok += 1;
+				format!("ok {} {} {} {}", n, canon(v), maxreq, peak)
+			}
+			Ok(Err(e)) => {
+				st.err += 1;
+				let en = err_name(&e);
+				*st.kinds.entry(en.clone()).or_insert(0) += 1;
+				format!("err {} {} {}", en, maxreq, peak)
+			}
+			Err(msg) => {
+				st.panic += 1;
+				self.oracle_fails += 1;
+				self.out.raw(&format!("#ORACLE-FAIL C11 panic in {} ({}): {}", d, msg.replace('\n', " "), lhs));
+				format!("panic {} {}", maxreq, peak)
+			}
+		};
+		if maxreq.max(peak) > 93 * bytes.len() + SER_K {
+			self.oracle_fails += 1;
+			self.out.raw(&format!(
+				"#ORACLE-FAIL C11 over-allocation in {}: request {} / live peak {} > 93*{}+{}: {}",
+				d, maxreq, peak, bytes.len(), SER_K, lhs
+			));
+		}
+		self.out.line(&lhs, &rhs);
+	}
+}
+
+fn canon_v<T: Writeable>(ver: u32) -> impl FnOnce(T) -> String {
+	move |v: T| match ser::ser_vec(&v, ProtocolVersion(ver)) {
+		Ok(b) => hex(&b),
+		Err(_) => "E".to_string(),
+	}
+}
+
+/// clock, future time limit and the verdict of `verify_size` on the header at the front of `bytes`
+fn header_extra(bytes: &[u8], ver: u32) -> String {
+	let now = chrono::Utc::now().timestamp();
+	let ftl = global::get_future_time_limit();
+	let pow = match ser::deserialize::<BlockHeader, _>(&mut &bytes[..], ProtocolVersion(ver), DeserializationMode::default()) {
+		Ok(h) => catch(std::panic::AssertUnwindSafe(|| grin_core::pow::verify_size(&h).is_ok())).unwrap_or(false),
+		Err(_) => false,
+	};
+	format!("{}:{}:{}", now, ftl, pow as u8)
+}
+
+fn rand_commit(rng: &mut Rng) -> Commitment {
+	Commitment::from_vec(rng.bytes(33))
+}
+
+fn gen_output(rng: &mut Rng, coinbase: bool) -> Output {
+	let mut proof = [0u8; 675];
+	proof.copy_from_slice(&rng.bytes(675));
+	Output::new(
+		if coinbase { OutputFeatures::Coinbase } else { OutputFeatures::Plain },
+		rand_commit(rng),
+		RangeProof { proof, plen: 675 },
+	)
+}
+
+fn gen_kernel(rng: &mut Rng, coinbase: bool) -> TxKernel {
+	let fee = {
+		let raw = (rng.below(1 << 30) + 1).to_be_bytes();
+		ser::deserialize::<grin_core::core::FeeFields, _>(&mut &raw[..], ProtocolVersion(1), DeserializationMode::default()).unwrap()
+	};
+	let features = if coinbase {
+		KernelFeatures::Coinbase
+	} else if rng.chance(1, 2) {
+		KernelFeatures::Plain { fee }
+	} else {
+		KernelFeatures::HeightLocked { fee, lock_height: pick_u64(rng) }
+	};
+	let mut k = TxKernel::with_features(features);
+	k.excess = rand_commit(rng);
+	let mut sig = [0u8; 64];
+	sig.copy_from_slice(&rng.bytes(64));
+	k.excess_sig = grin_util::secp::Signature::from_raw_data(&sig).unwrap();
+	k
+}
+
+/// a transaction that passes `Transaction::read` (sorted, no duplicates, no coinbase items, light enough)
+fn gen_tx(rng: &mut Rng, ni: usize, no: usize, nk: usize, coinbase: bool) -> Transaction {
+	let inputs: Vec<Input> = (0..ni)
+		.map(|_| Input::new(if rng.chance(1, 4) { OutputFeatures::Coinbase } else { OutputFeatures::Plain }, rand_commit(rng)))
+		.collect();
+	let outputs: Vec<Output> = (0..no).map(|i| gen_output(rng, coinbase && i == 0)).collect();
+	let kernels: Vec<TxKernel> = (0..nk).map(|i| gen_kernel(rng, coinbase && i == 0)).collect();
+	Transaction::new(Inputs::from(inputs.as_slice()), &outputs, &kernels)
+}
+
+/// the sections of a serialised body as `Parts` (items in their serialised, sorted order)
+fn tx_parts(tx: &Transaction, ver: u32, prefix: Vec<u8>) -> Parts {
+	let ib = sv(&tx.body.inputs, ver);
+	let isz = if ver >= 3 { 33 } else { 34 };
+	Parts {
+		prefix,
+		secs: [
+			ib.chunks(isz).map(|c| c.to_vec()).collect(),
+			tx.body.outputs.iter().map(|o| sv(o, ver)).collect(),
+			tx.body.kernels.iter().map(|k| sv(k, ver)).collect(),
+		],
+	}
+}
+
+fn ser_streams(cx: &mut Ctx) {
+	let mut r = Rng::new(cx.rng.next());
+	let big = if cx.thorough { 3 } else { 1 };
+	let rn = budget(cx, 40, 300);
+	// in-memory sizes the allocation model uses
+	for (name, sz) in [
+		("commitment", std::mem::size_of::<Commitment>()),
+		("input", std::mem::size_of::<Input>()),
+		("outputid", std::mem::size_of::<OutputIdentifier>()),
+		("rangeproof", std::mem::size_of::<RangeProof>()),
+		("output", std::mem::size_of::<Output>()),
+		("kernel", std::mem::size_of::<TxKernel>()),
+		("shortid", std::mem::size_of::<ShortId>()),
+	] {
+		cx.out.line(&format!("codec memsize {}", name), &sz.to_string());
+	}
+	let other = r.bytes(48);
+	let header = mined_header(&mut r);
+	for (vi, v) in VERSIONS.iter().copied().enumerate() {
+		// the byte-level mutation families run at one version (all of them in the thorough tier); valid
+		// encodings, item-level resizes, boundary counts and random bytes run at every version
+		let full = vi == 0 || cx.thorough;
+		// ---- items
+		let mut cases: Vec<Vec<u8>> = vec![];
+		for plen in [675u64, 0, 1, 674, 676, 100_000, 100_001, u64::MAX] {
+			let have = plen.min(700) as usize;
+			let mut b = vec![r.below(3) as u8];
+			b.extend_from_slice(&r.bytes(33));
+			b.extend_from_slice(&be64(plen));
+			b.extend_from_slice(&r.bytes(have));
+			cases.push(b);
+		}
+		let base = sv(&gen_output(&mut r, false), v);
+		if full {
+			cases.extend(mutations(&mut r, &base[..60], &[675, 100_000], &other, cx.thorough).into_iter().map(|mut m| {
+				m.extend_from_slice(&base[60..]);
+				m
+			}));
+		}
+		cases.extend(resize_u64_fields(&mut r, &base, big));
+		cases.extend(random_inputs(&mut r, rn, 80));
+		for (i, m) in cases.iter().enumerate() {
+			cx.decs::<Output, _>("output", i % 2 == 0, v, "-", m, canon_v::<Output>(v));
+			if i % 3 == 0 {
+				cx.decs::<RangeProof, _>("rproof", i % 2 == 1, v, "-", &m[m.len().min(34)..], canon_v::<RangeProof>(v));
+			}
+		}
+		let mut cases: Vec<Vec<u8>> = vec![];
+		for j in 0..3 {
+			let kb = sv(&gen_kernel(&mut r, j == 0), v);
+			cases.push(kb.clone());
+			if full && j > 0 {
+				cases.extend(mutations(&mut r, &kb[..40], &[], &other, cx.thorough).into_iter().map(|mut m| {
+					m.extend_from_slice(&kb[40..]);
+					m
+				}));
+			}
+		}
+		// every feature byte, NRD included (disabled: must be refused)
+		for fb in 0..=5u8 {
+			let mut b = vec![fb];
+			b.extend_from_slice(&r.bytes(130));
+			cases.push(b.clone());
+			for z in 1..18 {
+				b[z] = 0;
+			}
+			cases.push(b);
+		}
+		cases.extend(random_inputs(&mut r, rn, 130));
+		for (i, m) in cases.iter().enumerate() {
+			cx.decs::<TxKernel, _>("kernel", i % 2 == 0, v, "-", m, canon_v::<TxKernel>(v));
+		}
+		let ib = sv(&Input::new(OutputFeatures::Plain, rand_commit(&mut r)), v);
+		let mut cases = if full { mutations(&mut r, &ib, &[], &other, cx.thorough) } else { vec![ib.clone()] };
+		cases.extend(random_inputs(&mut r, rn, 40));
+		for (i, m) in cases.iter().enumerate() {
+			cx.decs::<Input, _>("input", i % 2 == 0, v, "-", m, canon_v::<Input>(v));
+			cx.decs::<OutputIdentifier, _>("outid", i % 2 == 1, v, "-", m, canon_v::<OutputIdentifier>(v));
+		}
+		// ---- transactions: valid ones (several shapes), mutations of one, consistent resizes, random
+		let mut cases: Vec<Vec<u8>> = vec![];
+		for (ni, no, nk) in [(0usize, 0usize, 0usize), (1, 1, 1), (2, 3, 2), (0, 1, 1), (5, 2, 1), (3, 9, 3), (1, 10, 2), (1, 11, 1)] {
+			let tx = gen_tx(&mut r, ni, no, nk, false);
+			let b = sv(&tx, v);
+			cases.push(b.clone());
+			let parts = tx_parts(&tx, v, b[..32].to_vec());
+			debug_assert_eq!(parts.bytes(), b);
+			cases.extend(parts.resized());
+			if (ni, no, nk) == (1, 1, 1) {
+				if full || vi == 2 {
+					// offset, counts, the input and the head of the output; then the kernel at the end
+					let cut = 150.min(b.len());
+					cases.extend(mutations(&mut r, &b[..cut], &[1_000_000, 250, 226, 11], &other, cx.thorough).into_iter().map(|mut m| {
+						m.extend_from_slice(&b[cut..]);
+						m
+					}));
+					let kcut = b.len() - 120;
+					cases.extend(mutations(&mut r, &b[kcut..], &[], &other, false).into_iter().map(|m| {
+						let mut x = b[..kcut].to_vec();
+						x.extend_from_slice(&m);
+						x
+					}));
+				}
+				cases.extend(resize_u64_fields(&mut r, &b, big));
+			}
+			// an input that spends an output of the same transaction: refused by verify_cut_through
+			if ni > 0 && no > 0 {
+				let base = gen_tx(&mut r, ni, no, nk, false);
+				let spent = base.body.outputs[r.below(no as u64) as usize].identifier.commit;
+				let mut ins: Vec<Input> = (1..ni).map(|_| Input::new(OutputFeatures::Plain, rand_commit(&mut r))).collect();
+				ins.push(Input::new(OutputFeatures::Plain, spent));
+				let ct = Transaction::new(Inputs::from(ins.as_slice()), &base.body.outputs, &base.body.kernels);
+				cases.push(sv(&ct, v));
+			}
+			// a coinbase item inside a transaction: refused by verify_features
+			let cb = gen_tx(&mut r, ni, no.max(1), nk.max(1), true);
+			cases.push(sv(&cb, v));
+			// unsorted / duplicated items
+			let off = r.bytes(32);
+			let mut un = body_parts(&mut r, v, off, ni.min(3), no.min(3), nk.min(3));
+			cases.push(un.bytes());
+			if no > 0 {
+				let dup = un.secs[1][0].clone();
+				un.secs[1].push(dup);
+				cases.push(un.bytes());
+			}
+		}
+		// counts at the weight limit and the read_multi cap, with nothing behind them
+		for (ni, no, nk) in [(250u64, 0u64, 0u64), (251, 0, 0), (0, 11, 6), (0, 12, 0), (0, 0, 83), (0, 0, 84), (1_000_000, 0, 0), (1_000_001, 0, 0), (u64::MAX, u64::MAX, u64::MAX), (0, 1 << 62, 0)] {
+			let mut b = r.bytes(32);
+			b.extend_from_slice(&be64(ni));
+			b.extend_from_slice(&be64(no));
+			b.extend_from_slice(&be64(nk));
+			b.extend_from_slice(&r.bytes(100));
+			cases.push(b);
+		}
+		cases.extend(random_inputs(&mut r, rn, 300));
+		for (i, m) in cases.iter().enumerate() {
+			cx.decs::<Transaction, _>("tx", i % 2 == 0, v, "-", m, canon_v::<Transaction>(v));
+		}
+		// ---- headers
+		let hb = sv(&header, v);
+		let tail = 1 + 10;
+		let mut cases = vec![hb.clone()];
+		for eb in [0u8, 1, 7, 8, 9, 10, 11, 29, 31, 32, 62, 63, 64, 255] {
+			for delta in [-1i64, 0, 1] {
+				let mut m = hb[..hb.len() - tail].to_vec();
+				m.push(eb);
+				let want = ((eb as i64 * 8 + 7) / 8 + delta).max(0) as usize;
+				m.extend_from_slice(&r.bytes(want));
+				cases.push(m);
+			}
+		}
+		if full {
+			cases.extend(mutations(&mut r, &hb, &[63, 64], &other, true));
+		}
+		// timestamps around the representable range and the future time limit
+		let now = chrono::Utc::now().timestamp();
+		for ts in [i64::MIN, i64::MAX, -8334601228800, -8334601228801, 8210266790400, 8210266790401, now + 200, now + 400, now + 100_000] {
+			let mut m = hb.clone();
+			m[10..18].copy_from_slice(&ts.to_be_bytes());
+			cases.push(m);
+		}
+		cases.extend(random_inputs(&mut r, rn, 300));
+		for (i, m) in cases.iter().enumerate() {
+			cx.decs::<BlockHeader, _>("header", i % 2 == 0, v, "-", m, canon_v::<BlockHeader>(v));
+			let ex = header_extra(m, v);
+			cx.decs::<UntrustedBlockHeader, _>("uheader", i % 2 == 1, v, &ex, m, |h| canon_v::<BlockHeader>(v)(BlockHeader::from(h)));
+		}
+		// ---- blocks and compact blocks behind the mined header
+		let mut cases: Vec<Vec<u8>> = vec![];
+		let mut ccases: Vec<Vec<u8>> = vec![];
+		for (ni, no, nk) in [(0usize, 1usize, 1usize), (1, 2, 2), (3, 4, 2), (2, 11, 3), (0, 0, 0)] {
+			let tx = gen_tx(&mut r, ni, no, nk, no > 0 && nk > 0);
+			let blk = Block { header: header.clone(), body: tx.body.clone() };
+			let b = sv(&blk, v);
+			cases.push(b.clone());
+			let parts = tx_parts(&tx, v, hb.clone());
+			cases.extend(parts.resized());
+			if (ni, no, nk) == (1, 2, 2) {
+				for m in resize_u64_fields(&mut r, &b[hb.len()..], big) {
+					let mut x = hb.clone();
+					x.extend_from_slice(&m);
+					cases.push(x);
+				}
+				let body_only = b[hb.len()..].to_vec();
+				let ms = if full { mutations(&mut r, &body_only[..body_only.len().min(200)], &[250, 11], &other, false) } else { vec![] };
+				for m in ms {
+					let mut x = hb.clone();
+					x.extend_from_slice(&m);
+					x.extend_from_slice(&body_only[body_only.len().min(200)..]);
+					cases.push(x);
+				}
+			}
+			let cb = CompactBlock::from(blk);
+			let cbb = sv(&cb, v);
+			ccases.push(cbb.clone());
+			if (ni, no, nk) == (1, 2, 2) {
+				for m in resize_u64_fields(&mut r, &cbb[hb.len()..], big) {
+					let mut x = hb.clone();
+					x.extend_from_slice(&m);
+					ccases.push(x);
+				}
+				let tailb = cbb[hb.len()..].to_vec();
+				let ms = if full { mutations(&mut r, &tailb[..tailb.len().min(120)], &[1_000_000], &other, false) } else { vec![] };
+				for m in ms {
+					let mut x = hb.clone();
+					x.extend_from_slice(&m);
+					x.extend_from_slice(&tailb[tailb.len().min(120)..]);
+					ccases.push(x);
+				}
+			}
+		}
+		// compact bodies without a weight limit: many zero-length-proof outputs (42 wire bytes, 728 in memory),
+		// sorted by hash so that the read succeeds; and counts at the read_multi cap with nothing behind them
+		for n in [30usize, 200] {
+			let mut outs: Vec<Output> = (0..n).map(|_| gen_output(&mut r, true)).collect();
+			outs.sort_unstable();
+			let mut b = hb.clone();
+			b.extend_from_slice(&be64(7));
+			b.extend_from_slice(&be64(n as u64));
+			b.extend_from_slice(&be64(0));
+			b.extend_from_slice(&be64(0));
+			for o in &outs {
+				let ob = sv(o, v);
+				b.extend_from_slice(&ob[..34]);
+				b.extend_from_slice(&be64(0));
+			}
+			ccases.push(b);
+		}
+		for (a, b2, c) in [(1_000_000u64, 0u64, 0u64), (1_000_001, 0, 0), (0, 1_000_000, 1_000_000), (0, 0, u64::MAX), (3, 3, 3)] {
+			let mut b = hb.clone();
+			b.extend_from_slice(&be64(7));
+			b.extend_from_slice(&be64(a));
+			b.extend_from_slice(&be64(b2));
+			b.extend_from_slice(&be64(c));
+			b.extend_from_slice(&r.bytes(60));
+			ccases.push(b);
+		}
+		for (i, m) in cases.iter().enumerate() {
+			let ex = header_extra(m, v);
+			cx.decs::<UntrustedBlock, _>("ublock", i % 2 == 0, v, &ex, m, |b| canon_v::<Block>(v)(Block::from(b)));
+		}
+		for (i, m) in ccases.iter().enumerate() {
+			let ex = header_extra(m, v);
+			cx.decs::<UntrustedCompactBlock, _>("ucblock", i % 2 == 0, v, &ex, m, |b| canon_v::<CompactBlock>(v)(CompactBlock::from(b)));
+		}
+	}
+	// ---- bitmap segments and the segment responses (no protocol-version dependence: versions rotate)
+	let mut cases: Vec<Vec<u8>> = vec![];
+	for (n_chunks, mode, entries) in [(3u8, 0u8, 0u16), (64, 0, 0), (64, 1, 5), (10, 2, 300), (1, 1, 0), (65, 0, 0), (0, 1, 0), (0, 0, 0), (64, 1, 5000), (2, 3, 0), (64, 2, 4097)] {
+		let bl = bitmap_block_bytes(&mut r, n_chunks, mode, entries);
+		for nb in [1usize, 2, 3] {
+			let mut blocks: Vec<Vec<u8>> = (0..nb - 1).map(|_| bitmap_block_bytes(&mut r, 64, (nb % 3) as u8, 3)).collect();
+			blocks.push(bl.clone());
+			for np in [0u64, 2, 1025] {
+				cases.push(bitmap_segment_bytes(&mut r, &blocks, np));
+			}
+		}
+		if mode != 0 && entries > 0 && entries < 65535 {
+			for d in [entries - 1, entries + 1] {
+				let mut b2 = bl.clone();
+				b2[2..4].copy_from_slice(&d.to_be_bytes());
+				cases.push(bitmap_segment_bytes(&mut r, &[b2], 1));
+			}
+		}
+	}
+	// 128 four-byte blocks that each reserve 8 KiB; heights around the cap; block counts around the cap
+	for (h, nb) in [(13u8, 128u16), (13, 129), (14, 1), (12, 64), (12, 65), (0, 1), (0, 2), (63, 1), (64, 1), (255, 1), (9, 0), (9, 9)] {
+		let mut b = vec![h];
+		b.extend_from_slice(&be64(r.below(4)));
+		b.extend_from_slice(&nb.to_be_bytes());
+		for _ in 0..nb.min(130) {
+			b.extend_from_slice(&[64, 1, 0, 0]);
+		}
+		b.extend_from_slice(&be64(0));
+		cases.push(b);
+	}
+	// a block count above the cap with no block behind it: refused (TooLargeReadErr) before any read
+	for (h, nb) in [(13u8, 129u16), (12, 65), (6, 2), (0, 2), (5, 1), (13, 128), (6, 1)] {
+		let mut b = vec![h];
+		b.extend_from_slice(&be64(1));
+		b.extend_from_slice(&nb.to_be_bytes());
+		cases.push(b);
+	}
+	let base = {
+		let blocks = vec![bitmap_block_bytes(&mut r, 64, 1, 5), bitmap_block_bytes(&mut r, 10, 2, 7)];
+		bitmap_segment_bytes(&mut r, &blocks, 2)
+	};
+	cases.extend(mutations(&mut r, &base, &[128, 64, 13], &other, cx.thorough));
+	cases.extend(random_inputs(&mut r, rn * 2, 60));
+	for (i, m) in cases.iter().enumerate() {
+		let v = VERSIONS[i % 4];
+		cx.decs::<BitmapSegment, _>("bitmapseg", i % 2 == 0, v, "-", m, canon_v::<BitmapSegment>(v));
+		if i % 2 == 0 {
+			let mut x = r.bytes(32);
+			x.extend_from_slice(m);
+			x.extend_from_slice(&r.bytes(32));
+			cx.decs::<OutputBitmapSegmentResponse, _>("resp:22", i % 4 == 0, v, "-", &x, canon_v::<OutputBitmapSegmentResponse>(v));
+		}
+	}
+	let counts: Vec<(u64, u64, u64)> = vec![(0, 0, 0), (1, 1, 1), (3, 2, 4), (2, 5, 2)];
+	for (j, (nh, nl, np)) in counts.iter().copied().enumerate() {
+		let v = VERSIONS[j % 4];
+		let out_leaf = |r: &mut Rng| {
+			let mut b = vec![r.below(2) as u8];
+			b.extend_from_slice(&r.bytes(33));
+			b
+		};
+		let mut b = r.bytes(32);
+		b.extend_from_slice(&segment_bytes_counts(&mut r, &out_leaf, nh, nl, np));
+		b.extend_from_slice(&r.bytes(32));
+		let mut ms = vec![b.clone()];
+		if j == 2 {
+			ms.extend(mutations(&mut r, &b, &[1_000_000, 1024], &other, false));
+		}
+		for (i, m) in ms.iter().enumerate() {
+			cx.decs::<OutputSegmentResponse, _>("resp:24", i % 2 == 0, v, "-", m, canon_v::<OutputSegmentResponse>(v));
+		}
+		let mut b = r.bytes(32);
+		b.extend_from_slice(&segment_bytes_counts(&mut r, &|r| { let l = *r.pick(&[675u64, 0, 676, 10]); let mut b = be64(l).to_vec(); b.extend_from_slice(&r.bytes(l.min(675) as usize)); b }, nh, nl, np));
+		let mut ms = vec![b.clone()];
+		if j == 1 {
+			ms.extend(mutations(&mut r, &b, &[1_000_000, 1024, 675], &other, false));
+		}
+		for (i, m) in ms.iter().enumerate() {
+			cx.decs::<SegmentResponse<RangeProof>, _>("resp:26", i % 2 == 0, v, "-", m, canon_v::<SegmentResponse<RangeProof>>(v));
+		}
+		let mut b = r.bytes(32);
+		b.extend_from_slice(&segment_bytes_counts(&mut r, &|r| gen_kernel_bytes(r, v), nh, nl, np));
+		let mut ms = vec![b.clone()];
+		if j == 3 {
+			ms.extend(mutations(&mut r, &b, &[1_000_000, 1024], &other, false));
+		}
+		for (i, m) in ms.iter().enumerate() {
+			cx.decs::<SegmentResponse<TxKernel>, _>("resp:28", i % 2 == 0, v, "-", m, canon_v::<SegmentResponse<TxKernel>>(v));
+		}
+	}
+	for (i, m) in random_inputs(&mut r, rn, 200).iter().enumerate() {
+		let v = VERSIONS[i % 4];
+		cx.decs::<OutputSegmentResponse, _>("resp:24", i % 2 == 0, v, "-", m, canon_v::<OutputSegmentResponse>(v));
+		cx.decs::<SegmentResponse<RangeProof>, _>("resp:26", i % 2 == 1, v, "-", m, canon_v::<SegmentResponse<RangeProof>>(v));
+		cx.decs::<SegmentResponse<TxKernel>, _>("resp:28", i % 2 == 0, v, "-", m, canon_v::<SegmentResponse<TxKernel>>(v));
+	}
+	// ---- Proof::read with proof size 42 (UserTesting): 42·edge_bits is not a multiple of 8 for odd edge_bits,
+	// so the padding bits of the last byte exist and must be zero
+	global::set_local_chain_type(ChainTypes::UserTesting);
+	let mut pad_cases = 0;
+	for eb in [1u64, 2, 3, 7, 8, 9, 15, 16, 17, 29, 31, 32, 33, 61, 62, 63, 0, 64, 255] {
+		let plen = ((eb * 42 + 7) / 8) as usize;
+		let pad = (plen as u64 * 8).saturating_sub(eb * 42) as u32;
+		for variant in 0..5 {
+			let mut body = r.bytes(plen);
+			if pad > 0 && pad < 8 && !body.is_empty() {
+				let last = body.len() - 1;
+				body[last] &= 0xffu8 >> pad;
+				if variant == 2 {
+					body[last] |= 1u8 << (8 - 1 - r.below(pad as u64) as u32);
+					pad_cases += 1;
+				}
+			}
+			if variant == 3 && !body.is_empty() {
+				body.pop();
+			}
+			if variant == 4 {
+				body.extend_from_slice(&r.bytes(3));
+			}
+			let mut b = vec![eb as u8];
+			b.extend_from_slice(&body);
+			cx.decs::<Proof, _>("proof42", variant % 2 == 0, 1, "-", &b, canon_v::<Proof>(1));
+		}
+	}
+	cx.out.raw(&format!("#STAT Proof::read at proof size 42: {} cases with a non-zero padding bit", pad_cases));
+	global::set_local_chain_type(ChainTypes::AutomatedTesting);
+	// ---- the header whose `height + 1` wraps (release) / overflows (debug): accepted by the shipped reader
+	let mut h = mined_header(&mut r);
+	h.height = u64::MAX;
+	h.version = grin_core::consensus::header_version(u64::MAX);
+	h.output_mmr_size = 0;
+	h.kernel_mmr_size = 0;
+	grin_core::pow::pow_size(&mut h, Difficulty::from_num(1), global::proofsize(), global::min_edge_bits()).expect("mine header");
+	let hb = sv(&h, 1);
+	let ex = header_extra(&hb, 1);
+	let (res, _) = read_with::<UntrustedBlockHeader>(true, &hb, 1);
+	cx.out.raw(&format!(
+		"#STAT probe header with height 2^64-1 (height + 1 wraps in UntrustedBlockHeader::read; a debug build panics there): release reader answers {}",
+		match &res { Ok(Ok(_)) => "ok".to_string(), Ok(Err(e)) => format!("err {}", err_name(e)), Err(p) => format!("PANIC {}", p.replace('\n', " ")) }
+	));
+	cx.decs::<UntrustedBlockHeader, _>("uheader", true, 1, &ex, &hb, |h| canon_v::<BlockHeader>(1)(BlockHeader::from(h)));
+}
+
+// ---------------------------------------------------------------------------------------------
 // unknown message types with announced lengths around and far above the limit: the refusal must
 // happen at the header, on the handshake path (`read_header`, `read_message` -> `read_discard`) and in
 // the real `Codec`, without the announced length ever reaching the allocator
@@ -1566,6 +2113,7 @@ fn child_main(mode: &str) {
 			hex_streams(&mut cx);
 			payload_streams(&mut cx);
 			consistent_resize_streams(&mut cx);
+			ser_streams(&mut cx);
 			unknown_type_oracle(&mut cx);
 			probe_in_process(&mut cx);
 		}
